@@ -205,6 +205,43 @@ func canon(sb *strings.Builder, v any) {
 	}
 }
 
+// Shape renders only what Canon deliberately ignores: which slices inside a value are nil and
+// which are empty but allocated (reflect.DeepEqual, "v == nil" in a code block and encoding/json
+// tell them apart). It is compared between runs of the SAME grammar and input that must be
+// observationally equal (option sets, optimized vs standard), never against the model.
+func Shape(v any) string {
+	var sb strings.Builder
+	shape(&sb, v)
+	return sb.String()
+}
+
+func shape(sb *strings.Builder, v any) {
+	switch x := v.(type) {
+	case nil:
+		sb.WriteByte('0')
+	case []byte:
+		if x == nil {
+			sb.WriteByte('n')
+		} else if len(x) == 0 {
+			sb.WriteByte('e')
+		} else {
+			sb.WriteByte('b')
+		}
+	case []any:
+		if x == nil {
+			sb.WriteByte('N')
+			return
+		}
+		sb.WriteByte('[')
+		for _, e := range x {
+			shape(sb, e)
+		}
+		sb.WriteByte(']')
+	default:
+		sb.WriteByte('v')
+	}
+}
+
 // CanonLabels renders label bindings.
 func CanonLabels(ls []L) string {
 	var sb strings.Builder
